@@ -23,7 +23,7 @@ def add_routes(cases, rng, k, tier):
         # judged where the injected token is known (library op) and not re-routed
         t = str(c.meta.get("token") or "")
         return "float-rounding" in c.tags or (t[:1] in "-0123456789" and ("." in t or "e" in t.lower()))
-    pool = [c for c in cases if c.runner == "harness" and not floaty(c) and c.line.split(" ")[0] in ("td.hash", "tx.parse", "mn.parse", "mn.seed", "path.parse", "sig.parse")]
+    pool = [c for c in cases if c.runner == "harness" and not floaty(c) and c.line.split(" ")[0] in ("td.hash", "tx.parse", "mn.parse", "mn.seed", "path.parse", "path.for_index", "sig.parse")]
     if tier == "thorough":
         k *= 4
     out = []
@@ -48,6 +48,10 @@ def add_routes(cases, rng, k, tier):
                             meta={"via": {"mnemonic": rng.choice(["flag", "env"]), "password": rng.choice(["flag", "env"])}}))
         elif op == "path.parse" and _argv_safe(args[0]):
             out.append(Case("cli.address %s - path:%s" % (mn, args[0]), tags=tags + ("address-path",), runner="cli", meta={"via": {"mnemonic": "env", "path": rng.choice(["flag", "env"])}}))
+        elif op == "path.for_index":
+            # the default path of an account index, through --account-index / ACCOUNT_INDEX (decimal text)
+            for cmd in ("cli.address", "cli.export"):
+                out.append(Case("%s %s - idx:%s" % (cmd, mn, hx(args[0])), tags=tags + ("account-index",), runner="cli", meta={"via": {"mnemonic": "env", "index": rng.choice(["flag", "env"])}}))
         elif op == "sig.parse" and _argv_safe(args[0]):
             out.append(Case("cli.hash_tx %s %s" % (hx(FIXED_TX), args[0]), tags=tags + ("hash_tx-signature",), runner="cli", meta={"via_file": False}))
     return out
